@@ -118,4 +118,120 @@ theorem Full_ops_agree_logged (cfg : Cfg) (inp : Bytes) :
       exact agree_of_unaryYL (Chunk.R.endTagHint_step hsim n d (invX_DO hI.1)) (Hom.hom_endTagHint hh n d)
         (U_endHint_Y cfg (Hom.mapD Prod.fst d) a b c n)
 
+/-- **Full_parse_eq_guarded_logged.** `Full_parse_eq_guarded` in the logged world. -/
+theorem Full_parse_eq_guarded_logged (cfg : Cfg) (inp : Bytes) (last : Bool) (p : Parser (Disp (FullStHL cfg)))
+    (hI : InvYL cfg p.x.sink) :
+    Parser.parse ⟨Gen.Syntax.table, Gen.Tags.cfg, XT (KL cfg) (dispOps (withLog (fullCtlH cfg)))⟩ inp last p =
+      Parser.parse ⟨Gen.Syntax.table, Gen.Tags.cfg, XT (KL cfg) (dispOps (withLog (cleanCtlH cfg)))⟩ inp last p ∧
+    ∀ n, (Parser.parse ⟨Gen.Syntax.table, Gen.Tags.cfg, XT (KL cfg) (dispOps (withLog (fullCtlH cfg)))⟩ inp last p).2 = .ok n →
+      InvYL cfg (Parser.parse ⟨Gen.Syntax.table, Gen.Tags.cfg, XT (KL cfg) (dispOps (withLog (fullCtlH cfg)))⟩ inp last p).1.x.sink :=
+  RelQ.parse_eq_of_agree (tbl := Gen.Syntax.table) (cfg := Gen.Tags.cfg) (Full_ops_agree_logged cfg inp)
+    C03.C03_emitsChecked_gen last p hI
+
+/-! ### guards read through a ghost: generic -/
+
+section pull
+variable {γ' γ : Type} {f : γ' → γ} {w : World γ} {c' : Controller γ'}
+
+theorem xfires_pull {K : SGuard (Disp γ)} {e : Err} (h : XFires (pullG f K) e) : XFires K e := by
+  rcases h with (⟨inp, lx, k, hk⟩ | ⟨inp, lx, k, hk⟩) | he
+  · exact Or.inl (Or.inl ⟨inp, lx, _, hk⟩)
+  · exact Or.inl (Or.inr ⟨inp, lx, _, hk⟩)
+  · exact Or.inr he
+
+/-- the guarded dispatcher over `c'` is, under `f`, the guarded dispatcher over `c` -/
+theorem xt_hom (h : Hom.CtlHom c' w.ctl f) (K : SGuard (Disp γ)) (inp : Bytes) :
+    RelE.OpsRelE (XT (pullG f K) (dispOps c')) (XT K (dispOps w.ctl)) inp (fun d' d => Hom.mapD f d' = d) (fun _ => False) where
+  handleTag := fun lx k₁ k₂ hk => by
+    subst hk
+    simp only [XT, guardHints, guardS, pullG]
+    cases K.tag inp lx (Hom.mapD f k₁) with
+    | some e => exact Or.inl ⟨rfl, rfl⟩
+    | none => exact (Hom.dispOps_hom h inp).handleTag lx k₁ _ rfl
+  handleNonTag := fun lx k₁ k₂ hk => by
+    subst hk
+    simp only [XT, guardHints, guardS, pullG]
+    cases K.nonTag inp lx (Hom.mapD f k₁) with
+    | some e => exact Or.inl ⟨rfl, rfl⟩
+    | none => exact (Hom.dispOps_hom h inp).handleNonTag lx k₁ _ rfl
+  startTagHint := fun n ns k₁ k₂ hk => by
+    subst hk
+    by_cases hc : (k₁.gotFlagsFromHint || k₁.pendingAux) = true
+    · have hc' : ((Hom.mapD f k₁).gotFlagsFromHint || (Hom.mapD f k₁).pendingAux) = true := hc
+      simp only [XT, guardHints, guardS, hc, hc', if_true]; exact Or.inl ⟨by first | rfl | trivial, by first | rfl | trivial⟩
+    · have hc' : ¬ ((Hom.mapD f k₁).gotFlagsFromHint || (Hom.mapD f k₁).pendingAux) = true := hc
+      simp only [XT, guardHints, guardS, hc, hc', if_false, Bool.false_eq_true]
+      exact (Hom.dispOps_hom h inp).startTagHint n ns k₁ _ rfl
+  endTagHint := fun n k₁ k₂ hk => by
+    subst hk
+    by_cases hc : (k₁.gotFlagsFromHint || k₁.pendingAux) = true
+    · have hc' : ((Hom.mapD f k₁).gotFlagsFromHint || (Hom.mapD f k₁).pendingAux) = true := hc
+      simp only [XT, guardHints, guardS, hc, hc', if_true]; exact Or.inl ⟨by first | rfl | trivial, by first | rfl | trivial⟩
+    · have hc' : ¬ ((Hom.mapD f k₁).gotFlagsFromHint || (Hom.mapD f k₁).pendingAux) = true := hc
+      simp only [XT, guardHints, guardS, hc, hc', if_false, Bool.false_eq_true]
+      exact (Hom.dispOps_hom h inp).endTagHint n k₁ _ rfl
+
+/-- one parse: "the guarded parse is the plain one and returns no refusal" passes to the world over `c'` -/
+theorem parse_pull (h : Hom.CtlHom c' w.ctl f) (ht : EmitsChecked w.tbl = true) (K : SGuard (Disp γ))
+    (hpK : ∀ e, XFires K e → ∃ s, e = .panic s)
+    (inp : Bytes) (last : Bool) (p' : Parser (Disp γ')) (p : Parser (Disp γ)) (hp : PR (Hom.HR f) p' p)
+    (h2 : Parser.parse (envT w (XT K)) inp last p = Parser.parse w.env inp last p)
+    (h2n : ∀ e, XFires K e → (Parser.parse w.env inp last p).2 ≠ .error e) :
+    Parser.parse (envT (Hom.worldOf w c') (XT (pullG f K))) inp last p' = Parser.parse (Hom.worldOf w c').env inp last p' ∧
+    ∀ e, XFires (pullG f K) e → (Parser.parse (Hom.worldOf w c').env inp last p').2 ≠ .error e := by
+  obtain ⟨_, hres⟩ := Hom.parse_hr h ht inp last p' p hp
+  refine ⟨?_, fun e he hh => h2n e (xfires_pull he) (by rw [← hres]; exact hh)⟩
+  have r3 := RelE.parse_relE (tbl := w.tbl) (cfg := w.tags) (inp := inp) (xt_relReal (pullG f K) c' inp) ht last p' p' (PR_refl p')
+  rcases r3 with ⟨hq, hr⟩ | ⟨e, hFe, hr⟩
+  · exact Prod.ext (PR_eq' hq) hr
+  · exfalso
+    obtain ⟨s, rfl⟩ := hpK e (xfires_pull hFe)
+    rcases RelE.parse_relE (tbl := w.tbl) (cfg := w.tags) (inp := inp) (xt_hom h K inp) ht last p' p hp with ⟨_, hg⟩ | ⟨_, hfalse, _⟩
+    · have hr' : (Parser.parse (envT (Hom.worldOf w c') (XT (pullG f K))) inp last p').2 = .error (.panic s) := hr
+      have hg' : (Parser.parse (envT (Hom.worldOf w c') (XT (pullG f K))) inp last p').2 =
+          (Parser.parse (envT w (XT K)) inp last p).2 := hg
+      rw [hg', h2] at hr'
+      exact h2n _ (xfires_pull hFe) hr'
+    · exact hfalse
+
+theorem chunkFor_pull {s' : Stream γ'} {s : Stream γ} (hs : Hom.SRh f s' s) {data chunk : Bytes} {s1' : Stream γ'}
+    (hcf : s'.chunkFor (Hom.worldOf w c') data = .inr (s1', chunk)) :
+    ∃ s1, s.chunkFor w data = .inr (s1, chunk) ∧ PR (Hom.HR f) s1'.parser s1.parser := by
+  obtain ⟨hp, hb, hh, hc, hn⟩ := hs
+  unfold Stream.chunkFor at hcf ⊢
+  rw [← hh, ← hb]
+  by_cases hbb : s'.hasBuffered = true
+  · simp only [hbb, if_true] at hcf ⊢
+    by_cases ha : (s'.buf.append data).2 = true
+    · simp only [ha, if_true, Sum.inr.injEq, Prod.mk.injEq] at hcf ⊢
+      obtain ⟨rfl, rfl⟩ := hcf
+      exact ⟨_, ⟨rfl, rfl⟩, hp⟩
+    · simp [ha] at hcf
+  · simp only [hbb, if_false, Bool.false_eq_true, Sum.inr.injEq, Prod.mk.injEq] at hcf ⊢
+    obtain ⟨rfl, rfl⟩ := hcf
+    exact ⟨_, ⟨rfl, rfl⟩, hp⟩
+
+/-- the run-level companion passes to the world over `c'` -/
+theorem guardFree_pull (h : Hom.CtlHom c' w.ctl f) (ht : EmitsChecked w.tbl = true) (K : SGuard (Disp γ))
+    (hpK : ∀ e, XFires K e → ∃ s, e = .panic s) (g' : γ') (cfg : Settings)
+    (hgf : GuardFreeT w (XT K) (XFires K) (f g') cfg) :
+    GuardFreeT (Hom.worldOf w c') (XT (pullG f K)) (XFires (pullG f K)) g' cfg := by
+  have hnew : Hom.RRh f (Rewriter.new (Hom.worldOf w c') g' cfg) (Rewriter.new w (f g') cfg) := by
+    refine ⟨⟨?_, rfl, rfl, rfl, rfl⟩, rfl, rfl⟩
+    simp only [Rewriter.new, Stream.new, Hom.worldOf, h.initialFlags g']
+    refine ⟨rfl, rfl, rfl, rfl, rfl, ?_, rfl, rfl⟩
+    show Hom.mapD f _ = _
+    simp only [Parser.new, Disp.new, Hom.mapD, h.initialFlags g']
+  intro pre hpo
+  obtain ⟨⟨hs, hp, he⟩, _⟩ := Hom.writeAll_hr h ht pre hnew
+  obtain ⟨A, B⟩ := hgf pre (by rw [← hp]; exact hpo)
+  refine ⟨fun data s1' chunk hcf => ?_, ?_⟩
+  · obtain ⟨s1, h1, h2⟩ := chunkFor_pull hs hcf
+    exact parse_pull h ht K hpK chunk false _ _ h2 (A data s1 chunk h1).1 (A data s1 chunk h1).2
+  · obtain ⟨hpr, hb, hh, hc, hn⟩ := hs
+    rw [hh, hb]
+    exact parse_pull h ht K hpK _ true _ _ hpr B.1 B.2
+
+end pull
+
 end LolHtml.Thm.Full
